@@ -18,30 +18,33 @@
 
   PROVED (over any commutative star semiring, all diagrams, all object maps incl. dimension 1
   and multi-wire `Dim`s, all arrays; `GaussInt`, at which the compiled model runs, is one):
-  * `functor_eval_eq_layers_partial`: on a well-typed diagram (`Diagram.WF`, the C01 predicate)
-    whose swap boxes are swaps, if every box is sent to a well-formed tensor of the type the
-    functor assigns to it (`BoxOK`), the two programs return the SAME result — the same tensor,
-    or the same error when some `F(box)` fails (wrong array size).  Proof: induction over the
-    layers with the loop invariant `Inv` (running array has axes `[F dom | F scan | 1…1]` and,
-    reshaped, is the composite so far); box branch `stepBox_spec`, swap branch `stepSwap_spec`.
-  * `BoxOK` is discharged for generators and daggered generators (`boxOK_gen`), swaps
-    (`boxOK_swap`), and cups/caps when every object is sent to at most one wire — an `int` or a
-    `Dim` of length ≤ 1, "dimension per atomic type" in the property's words (`boxOK_cup`,
-    `boxOK_cap`).  Hence `functor_eval_eq_layers_atomic` has no hypothesis on `F(box)` at all.
+  * `functor_eval_eq_layers`: on every well-typed diagram (`Diagram.WF`, the C01 predicate)
+    whose `Swap`/`Cup`/`Cap` boxes are genuine (`Genuine`: a swap exchanges its first wire with
+    the rest, a cup has two input wires and no output, a cap the converse — what the classes of
+    discopy guarantee) the two programs return the SAME result: the same tensor, or the same
+    error (an array of the wrong size, or `Tensor.cups` refusing non-adjoint dimension tuples
+    because winding numbers are erased).  No hypothesis on the functor.
+    Proof: induction over the layers with the loop invariant `Inv` (the running array has axes
+    `[F dom | F scan | 1…1]` and, reshaped, is the composite so far); the box branch is
+    `stepBox_spec` (`tensordotAxes_block` for tensor.py:381-385, `moveaxisOrder_moveback` for
+    386-389), the swap branch `stepSwap_spec` (`moveaxisOrder_blockswap` for 369-377).
+  * `functor_eval_eq_layers_of_boxOK`: the same from the weaker hypothesis that every box is
+    sent to a well-formed tensor of the type the functor assigns to it (`BoxOK`), discharged by
+    `boxOK_of_genuine`: generators and daggered generators, swaps, nested cups and caps of
+    every dimension tuple (`Proofs/TensorCups.lean`).
   * `call_ofBox`: a box seen as a one-box diagram evaluates to `F(box)` (the `Box` branch of
     `__call__`, tensor.py:356-361, agrees with the loop).
-  * `obj_to_dim_ignores_z`: winding numbers are erased by the object map.
+  * `functor_eval_type`, `functor_ty_monoidal`, `obj_to_dim_ignores_z`.
 
-  NOT PROVED (stated as `def … : Prop`, no theorem claims them):
-  * `functor_eval_eq_layers_full`: the same without `BoxOK`, i.e. also for cups/caps over an
-    object sent to a multi-wire `Dim` (nested cups of rigid.py:449-454; `Tensor.cups` then
-    raises unless the Dim is a palindrome).  Covered by correspondence + oracle only.
-  * invariance under interchange / normal form as a Lean theorem needs the SMC layer-exchange
-    lemma (C05/C06) instantiated at tensors; the algebra it needs is proved under C08
-    (`interchange_law`, unit laws).  Checked by the oracle of harness/props/c09.py.
+  NOT PROVED as Lean theorems (oracle of harness/props/c09.py only):
+  * invariance under interchange / normal form: needs the SMC layer-exchange lemma (C05/C06)
+    instantiated at tensors; the algebra it needs is proved under C08 (`interchange_law`, unit
+    laws).  By `functor_eval_eq_layers` it is a statement about `layerwise` alone.
   * spiders, bubbles, sums: a spider is a generator whose array is `Tensor.spiderArray`
-    (recorded in the model, covered by `boxOK_gen`); bubbles (`map func`) and sums
+    (recorded in the model, covered as a generator); bubbles (`map func`) and sums
     (`Tensor.add` fold) are not part of `TFunctor.call`; the harness checks them on real code.
+    `Diagram.eval` IS the call of the identity-on-arrays functor (tensor.py:429): nothing to
+    prove, the harness checks it.
 -/
 import Proofs.TensorFunctor
 import Proofs.GaussInt
@@ -62,38 +65,23 @@ theorem functor_ty_monoidal (F : TFunctor R) (s t : Ty) :
     F.ty (s ++ t) = F.ty s ++ F.ty t ∧ F.ty [] = [] :=
   ⟨ty_append F s t, rfl⟩
 
-/-- **Single-pass evaluation = layer-by-layer composite** (both branches of the loop). -/
-theorem functor_eval_eq_layers_partial (F : TFunctor R) (d : Diagram) (hwf : d.WF)
+/-- Single-pass evaluation = layer-by-layer composite, from `BoxOK`. -/
+theorem functor_eval_eq_layers_of_boxOK (F : TFunctor R) (d : Diagram) (hwf : d.WF)
     (hsw : ∀ b ∈ d.boxes, SwapOK b) (hbox : ∀ b ∈ d.boxes, BoxOK F b) :
     F.call d = F.layerwise d :=
   call_eq_layerwise F d hwf hsw hbox
 
-/-- Generators, daggered generators and swaps always satisfy `BoxOK`. -/
-theorem boxOK_gen_swap (F : TFunctor R) (b : Box) (h : b.kind = .gen ∨ (b.kind = .swap ∧ SwapOK b)) :
-    BoxOK F b := by
-  rcases h with h | ⟨h, hs⟩
-  · exact boxOK_gen F b h
-  · exact boxOK_swap F b h hs
+/-- Every genuine box is sent to a well-formed tensor of the right type. -/
+theorem boxOK_of_genuine (F : TFunctor R) (b : Box) (hb : Genuine b) : BoxOK F b :=
+  TFunctor.boxOK_of_genuine F b hb
 
-/-- With one dimension per atomic type (every object sent to at most one wire) the equality of
-    the two programs holds for ALL well-typed rigid diagrams with genuine swap/cup/cap boxes,
-    all arrays. -/
-theorem functor_eval_eq_layers_atomic (F : TFunctor R) (hF : Atomic F) (d : Diagram)
-    (hwf : d.WF) (hgen : ∀ b ∈ d.boxes, Genuine b) :
+/-- **C09: single-pass evaluation = layer-by-layer composite**, for every functor, every
+    well-typed diagram with genuine swap/cup/cap boxes, all dimensions, all arrays. -/
+theorem functor_eval_eq_layers (F : TFunctor R) (d : Diagram) (hwf : d.WF)
+    (hgen : ∀ b ∈ d.boxes, Genuine b) :
     F.call d = F.layerwise d :=
   call_eq_layerwise F d hwf (fun b hb => (hgen b hb).1)
-    (fun b hb => boxOK_of_atomic F hF b (hgen b hb))
-
-/-- Diagrams without cups and caps: every object map (multi-wire `Dim`s included). -/
-theorem functor_eval_eq_layers_monoidal (F : TFunctor R) (d : Diagram) (hwf : d.WF)
-    (hk : ∀ b ∈ d.boxes, b.kind = .gen ∨ (b.kind = .swap ∧ SwapOK b)) :
-    F.call d = F.layerwise d :=
-  call_eq_layerwise F d hwf
-    (fun b hb => by
-      rcases hk b hb with h | ⟨_, hs⟩
-      · intro h'; rw [h] at h'; cases h'
-      · exact hs)
-    (fun b hb => boxOK_gen_swap F b (hk b hb))
+    (fun b hb => TFunctor.boxOK_of_genuine F b (hgen b hb))
 
 /-- The `Box` branch of `__call__` agrees with the loop on the one-box diagram. -/
 theorem call_ofBox (F : TFunctor R) (b : Box) (hk : b.kind ≠ .swap) (hb : BoxOK F b) :
@@ -114,11 +102,6 @@ theorem functor_eval_type (F : TFunctor R) (d : Diagram) (t : Tensor R) (h : F.c
   split at h
   · cases h
   · exact mk?_ok h
-
-/-- FULL statement (NOT proved): no hypothesis on `F(box)`; includes cups/caps over objects
-    sent to multi-wire `Dim`s. -/
-def functor_eval_eq_layers_full : Prop :=
-  ∀ (F : TFunctor R) (d : Diagram), d.WF → (∀ b ∈ d.boxes, Genuine b) → F.call d = F.layerwise d
 
 end
 
@@ -151,9 +134,6 @@ example : d0.WF := by
   simp [LArrow.WF, d0, Chain, Layer.dom, Layer.cod, bf, bg, bsw, bcap, bcup, Box.swap, Box.cap,
     Box.cup, xa, xb, Ob.r]
 
-example : Atomic F0 := by
-  intro o; unfold F0; simp only; split <;> decide
-
 example : ∀ b ∈ d0.boxes, Genuine b := by
   intro b hb
   simp only [d0, List.mem_cons, List.not_mem_nil, or_false] at hb
@@ -161,7 +141,7 @@ example : ∀ b ∈ d0.boxes, Genuine b := by
     refine ⟨?_, ?_, ?_⟩ <;> intro h <;>
     first
       | (simp [bf, bg, bsw, bcap, bcup, Box.swap, Box.cap, Box.cup] at h; done)
-      | exact ⟨xb, xb.r, rfl, rfl, rfl⟩
+      | exact ⟨xb, xb.r, rfl, rfl⟩
       | rfl
 
 -- the evaluation of `d0` under `F0` succeeds (finite check): the equality below is not an
@@ -171,7 +151,7 @@ example : (F0.call d0).toOption.isSome = true := by decide +kernel
 
 /-- the theorem applies to `d0`, `F0` -/
 example : F0.call d0 = F0.layerwise d0 :=
-  functor_eval_eq_layers_atomic F0 (by intro o; unfold F0; simp only; split <;> decide) d0
+  functor_eval_eq_layers F0 d0
     (by
       refine ⟨rfl, rfl, rfl, rfl, ?_⟩
       simp [LArrow.WF, d0, Chain, Layer.dom, Layer.cod, bf, bg, bsw, bcap, bcup, Box.swap,
@@ -183,7 +163,7 @@ example : F0.call d0 = F0.layerwise d0 :=
         refine ⟨?_, ?_, ?_⟩ <;> intro h <;>
         first
           | (simp [bf, bg, bsw, bcap, bcup, Box.swap, Box.cap, Box.cup] at h; done)
-          | exact ⟨xb, xb.r, rfl, rfl, rfl⟩
+          | exact ⟨xb, xb.r, rfl, rfl⟩
           | rfl)
 
 end DV.C09
